@@ -110,30 +110,35 @@ def basis (mmax : Nat) (st : VLState K V) : Nat → V :=
            else if l < 2 * m then st.y (slot mmax st.k m (l - m))
            else st.lastgrad
 
+/-- body of the first store-update loop of `b_dot_b` (`for i in range(m)`) -/
+def storeStep1 (ip : V → V → K) (mmax : Nat) (st : VLState K V) (i : Nat) : VLState K V :=
+  let m := histLen mmax st
+  let k1 := (st.k - 1) % mmax
+  let kmi := slot mmax st.k m i
+  -- self.ss[kmi, k1] = self.ss[k1, kmi] = self.s[kmi].s_vdot(self.s[k1]);  same for yy;  self.sy[kmi, k1] = ...
+  let vss := ip (st.s kmi) (st.s k1)
+  let vyy := ip (st.y kmi) (st.y k1)
+  let vsy := ip (st.s kmi) (st.y k1)
+  { st with ss := upd2 (upd2 st.ss k1 kmi vss) kmi k1 vss,
+            yy := upd2 (upd2 st.yy k1 kmi vyy) kmi k1 vyy,
+            sy := upd2 st.sy kmi k1 vsy }
+
 /-- first store-update loop of `b_dot_b`: `for i in range(m)` (the list holds the `i` still to do) -/
 def storeLoop1 (ip : V → V → K) (mmax : Nat) (st : VLState K V) : List Nat → VLState K V
   | [] => st
-  | i :: r =>
-    let m := histLen mmax st
-    let k1 := (st.k - 1) % mmax
-    let kmi := slot mmax st.k m i
-    -- self.ss[kmi, k1] = self.ss[k1, kmi] = self.s[kmi].s_vdot(self.s[k1]);  same for yy;  self.sy[kmi, k1] = ...
-    let vss := ip (st.s kmi) (st.s k1)
-    let vyy := ip (st.y kmi) (st.y k1)
-    let vsy := ip (st.s kmi) (st.y k1)
-    storeLoop1 ip mmax
-      { st with ss := upd2 (upd2 st.ss k1 kmi vss) kmi k1 vss,
-                yy := upd2 (upd2 st.yy k1 kmi vyy) kmi k1 vyy,
-                sy := upd2 st.sy kmi k1 vsy } r
+  | i :: r => storeLoop1 ip mmax (storeStep1 ip mmax st i) r
 
-/-- second store-update loop: `for j in range(m-1): self.sy[k1, kmj] = self.s[k1].s_vdot(self.y[kmj])` -/
+/-- body of the second loop: `self.sy[k1, kmj] = self.s[k1].s_vdot(self.y[kmj])` -/
+def storeStep2 (ip : V → V → K) (mmax : Nat) (st : VLState K V) (j : Nat) : VLState K V :=
+  let m := histLen mmax st
+  let k1 := (st.k - 1) % mmax
+  let kmj := slot mmax st.k m j
+  { st with sy := upd2 st.sy k1 kmj (ip (st.s k1) (st.y kmj)) }
+
+/-- second store-update loop: `for j in range(m-1)` -/
 def storeLoop2 (ip : V → V → K) (mmax : Nat) (st : VLState K V) : List Nat → VLState K V
   | [] => st
-  | j :: r =>
-    let m := histLen mmax st
-    let k1 := (st.k - 1) % mmax
-    let kmj := slot mmax st.k m j
-    storeLoop2 ip mmax { st with sy := upd2 st.sy k1 kmj (ip (st.s k1) (st.y kmj)) } r
+  | j :: r => storeLoop2 ip mmax (storeStep2 ip mmax st j) r
 
 /-- `_InformationStore.b_dot_b`: refresh the stores, then assemble the `(2m+1)²` matrix.
     `gg` is what the code puts at `[2m, 2m]` (`self.last_gradient.norm()`, *not* squared; never read by `delta`
